@@ -82,6 +82,27 @@ macro_rules! roundtrip {
                 }
                 Err(e) => problems.push((format!("roundtrip-decode-failed:{}", $name), format!("{:?} on {}", e, hex(&buf)))),
             }
+            // the same bytes followed by other data (as inside any larger message): same value, exactly the written bytes consumed
+            for extra in [1usize, 4, 8, 9] {
+                if cfg!(miri) && extra != 8 {
+                    continue;
+                }
+                let mut longer: Vec<u8> = buf.clone();
+                longer.extend((0..extra).map(|i| 0xA5u8 ^ (i as u8)));
+                let longer: Box<[u8]> = longer.into_boxed_slice();
+                let mut decoder = Decoder::from(&longer[..]);
+                match decoder.decode::<$ty>() {
+                    Ok(back) => {
+                        if back.to_val() != $value.to_val() {
+                            problems.push((format!("embedded-value:{}", $name), format!("decoded {:?} from {} followed by {} more bytes", back.to_val(), hex(&buf), extra)));
+                        }
+                        if decoder.remaining() != extra {
+                            problems.push((format!("embedded-consumed:{}", $name), format!("{} bytes left, {} expected", decoder.remaining(), extra)));
+                        }
+                    }
+                    Err(e) => problems.push((format!("embedded-decode-failed:{}", $name), format!("{:?} on {} + {} bytes", e, hex(&buf), extra))),
+                }
+            }
             problems
         }));
         match r {
@@ -164,6 +185,20 @@ fn check_varint(out: &mut Outcome, v: i64, scratch: &mut Vec<u8>) {
                     }
                 }
             }
+            if fits {
+                // embedded in a longer buffer (3 / 8 more bytes): same value, same number of bytes consumed
+                for extra in [3usize, 8] {
+                    let mut longer: Vec<u8> = scratch.clone();
+                    longer.extend((0..extra).map(|i| 0x5Au8 ^ (i as u8)));
+                    let longer: Box<[u8]> = longer.into_boxed_slice();
+                    let mut d = Decoder::from(&longer[..]);
+                    match d.decode_varint::<$t>() {
+                        Ok(x) if x as i128 == v as i128 && d.remaining() == extra => {}
+                        other => fail(out, concat!("varint-embedded:", stringify!($t)),
+                                      format!("decode_varint::<{}> of {} ({}) followed by {} bytes gave {:?}, {} left", stringify!($t), v, hex(scratch), extra, other.ok(), d.remaining())),
+                    }
+                }
+            }
         }};
     }
     width!(i8, 8);
@@ -220,6 +255,19 @@ fn check_varuint(out: &mut Outcome, v: u64, scratch: &mut Vec<u8>) {
                 Err(_) => {
                     if fits {
                         fail(out, concat!("varuint-decode-refused:", stringify!($t)), format!("decode_varuint::<{}> of {} failed", stringify!($t), v));
+                    }
+                }
+            }
+            if fits {
+                for extra in [3usize, 8] {
+                    let mut longer: Vec<u8> = scratch.clone();
+                    longer.extend((0..extra).map(|i| 0x5Au8 ^ (i as u8)));
+                    let longer: Box<[u8]> = longer.into_boxed_slice();
+                    let mut d = Decoder::from(&longer[..]);
+                    match d.decode_varuint::<$t>() {
+                        Ok(x) if x as u128 == v as u128 && d.remaining() == extra => {}
+                        other => fail(out, concat!("varuint-embedded:", stringify!($t)),
+                                      format!("decode_varuint::<{}> of {} ({}) followed by {} bytes gave {:?}, {} left", stringify!($t), v, hex(scratch), extra, other.ok(), d.remaining())),
                     }
                 }
             }
@@ -419,6 +467,65 @@ pub fn run(p: &Params) -> Outcome {
             coll!("HashMap<i32,BTreeMap<bool,Vec<String>>>", HashMap<i32, BTreeMap<bool, Vec<String>>>,
                   Ty::Map(Box::new(Ty::I32), Box::new(Ty::Map(Box::new(Ty::Bool), Box::new(Ty::Seq(Box::new(Ty::Str)))))),
                   from_val::<HashMap<i32, BTreeMap<bool, Vec<String>>>>);
+
+            // The wire format does not order dictionary entries: what one mapping of a dictionary type writes, the other must read
+            // (HashMap writes in hash order), and entries in any order decode to the same map.
+            macro_rules! cross {
+                ($name:expr, $k:ty, $v:ty, $refty:expr) => {{
+                    let refty: Ty = $refty;
+                    let val = gen_val(&refty, &mut rng, 0);
+                    let h: HashMap<$k, $v> = from_val(&val);
+                    let b: BTreeMap<$k, $v> = from_val(&val);
+                    let mut hb: Vec<u8> = Vec::new();
+                    let mut bb: Vec<u8> = Vec::new();
+                    let _ = Encoder::from(&mut hb).encode(&h);
+                    let _ = Encoder::from(&mut bb).encode(&b);
+                    // entries reversed, through the reference encoder
+                    let rev = match &b.iter_order_val() {
+                        Val::Map(items) => Val::Map(items.iter().rev().cloned().collect()),
+                        _ => unreachable!(),
+                    };
+                    let rb = crate::c10::encode_in_iteration_order(&refty, &rev);
+                    out.evaluations += 3;
+                    let r = catch_unwind(AssertUnwindSafe(|| {
+                        let mut problems: Vec<(String, String)> = Vec::new();
+                        let exact: Box<[u8]> = hb.as_slice().into();
+                        let mut d = Decoder::from(&exact[..]);
+                        match d.decode::<BTreeMap<$k, $v>>() {
+                            Ok(x) if x.to_val() == b.to_val() && d.remaining() == 0 => {}
+                            other => problems.push((format!("cross-container:HashMap->BTreeMap:{}", $name), format!("{} decoded to {:?}", hex(&hb), other.map(|x| x.to_val())))),
+                        }
+                        let exact: Box<[u8]> = bb.as_slice().into();
+                        let mut d = Decoder::from(&exact[..]);
+                        match d.decode::<HashMap<$k, $v>>() {
+                            Ok(x) if x.to_val() == h.to_val() && d.remaining() == 0 => {}
+                            other => problems.push((format!("cross-container:BTreeMap->HashMap:{}", $name), format!("{} decoded to {:?}", hex(&bb), other.map(|x| x.to_val())))),
+                        }
+                        let exact: Box<[u8]> = rb.as_slice().into();
+                        let mut d = Decoder::from(&exact[..]);
+                        match d.decode::<BTreeMap<$k, $v>>() {
+                            Ok(x) if x.to_val() == b.to_val() && d.remaining() == 0 => {}
+                            other => problems.push((format!("entry-order:BTreeMap:{}", $name), format!("{} (entries in descending key order) decoded to {:?}", hex(&rb), other.map(|x| x.to_val())))),
+                        }
+                        problems
+                    }));
+                    match r {
+                        Ok(problems) => {
+                            for (sig, what) in problems {
+                                fail(&mut out, &sig, what);
+                            }
+                        }
+                        Err(_) => {
+                            let info = crate::LAST_PANIC.lock().unwrap().take().unwrap_or_default();
+                            fail(&mut out, &format!("panic:{}", info), format!("{}: cross-container decode panicked: {}", $name, info));
+                        }
+                    }
+                    out.count("cross_container_dictionaries", 1);
+                }};
+            }
+            cross!("u8,u8", u8, u8, Ty::Map(Box::new(Ty::U8), Box::new(Ty::U8)));
+            cross!("String,String", String, String, Ty::Map(Box::new(Ty::Str), Box::new(Ty::Str)));
+            cross!("i32,Vec<String>", i32, Vec<String>, Ty::Map(Box::new(Ty::I32), Box::new(Ty::Seq(Box::new(Ty::Str)))));
         }
         out
     });
